@@ -14,7 +14,7 @@ func OpenString(L *LState) int {
 	//_, ok := L.G.builtinMts[int(LTString)]
 	//if !ok {
 	mod = L.RegisterModule(StringLibName, strFuncs).(*LTable)
-	gmatch := L.NewClosure(strGmatch, L.NewFunction(strGmatchIter))
+	gmatch := L.NewFunction(strGmatch)
 	mod.RawSetString("gmatch", gmatch)
 	mod.RawSetString("gfind", gmatch)
 	mod.RawSetString("__index", mod)
@@ -309,16 +309,15 @@ type strMatchData struct {
 	matches []*pm.MatchData
 }
 
-func strGmatchIter(L *LState) int {
-	md := L.CheckUserData(1).Value.(*strMatchData)
+// strGmatchNext yields the captures of the next match (or the whole match); nothing once exhausted.
+func strGmatchNext(L *LState, md *strMatchData) int {
 	str := md.str
 	matches := md.matches
 	idx := md.pos
-	md.pos += 1
-	if idx == len(matches) {
+	if idx >= len(matches) {
 		return 0
 	}
-	L.Push(L.Get(1))
+	md.pos += 1
 	match := matches[idx]
 	if match.CaptureLength() == 2 {
 		L.Push(LString(str[match.Capture(0):match.Capture(1)]))
@@ -342,11 +341,10 @@ func strGmatch(L *LState) int {
 	if err != nil {
 		L.RaiseError(err.Error())
 	}
-	L.Push(L.Get(UpvalueIndex(1)))
-	ud := L.NewUserData()
-	ud.Value = &strMatchData{str, 0, mds}
-	L.Push(ud)
-	return 2
+	// the iterator is a closure that owns its state: it can be called directly, not only by a generic for
+	md := &strMatchData{str, 0, mds}
+	L.Push(L.NewFunction(func(L *LState) int { return strGmatchNext(L, md) }))
+	return 1
 }
 
 func strLen(L *LState) int {
